@@ -244,10 +244,16 @@ def _(I, args, kwargs):
     return SInt(r)
 
 
+GATHER_FUTURE = ext_class("gather_future", add_done_callback=effect())
+
+
 @external("asyncio.tasks.gather")
 def _(I, args, kwargs):
-    """asyncio.gather(*aws, return_exceptions=...): awaited as a whole; see asyncrule.GatherAwait (one legal
-    schedule is followed and the concurrency is recorded as an effect)"""
-    from pyvc.asyncrule import GatherAwait
+    """asyncio.gather(*aws, return_exceptions=...): a future over all of them.  Awaited: see asyncrule.GatherAwait (one
+    legal schedule is followed and the concurrency is recorded as an effect).  Not awaited: done-callbacks can be
+    attached; it completes when ALL awaitables have finished iff return_exceptions is true (otherwise as soon as one
+    of them fails or is cancelled) -- contracts speak about the recorded call"""
+    from pyvc.values import SObj
 
-    return GatherAwait(args, kwargs)
+    I.ctx.emit("asyncio.gather.created", None, tuple(args), dict(kwargs))
+    return SObj(GATHER_FUTURE, {"aws": list(args), "kwargs": dict(kwargs)}, tag="gather")
